@@ -131,6 +131,11 @@ fn main() {
         "c10" => props::derive::run_c10(seed, n, &mut out),
         "c06" => props::derive::run_c06(seed, n, &mut out),
         "c17" => props::recvfm::run_suggest(seed, n, &mut out),
+        "c08" => props::outer::run_partitions(seed, n, &mut out),
+        "c16" => props::outer::run(seed, n, &mut out, props::outer::Mode::Valid, 0xC16),
+        "c16p" => props::outer::run_print(seed, n, &mut out),
+        "c16m" => props::outer::run(seed, n, &mut out, props::outer::Mode::Mistakes, 0xC16A),
+        "c07o" => props::outer::run(seed, n, &mut out, props::outer::Mode::Malformed, 0xC07),
         "c13" => props::fm::run_c13(seed, n, &mut out),
         "c14" => props::fm::run_c14(seed, n, &mut out),
         "c15b" => props::fm::run_c15b(seed, n, &mut out),
